@@ -57,6 +57,12 @@ CHECKS["C15"] = dict(cat="model_checking", tech="exhaustive enumeration of layer
 CHECKS["C06"] = dict(cat="model_checking", tech="exhaustive enumeration of all ordered service sets (1..2/3 of 12 shapes x 3 global-negative-response configurations) x all byte strings up to length 3/4 over the layer's byte alphabet + all own encodings, three-valued reference dispatcher",
    text="Every layer of the bounded space is emitted, loaded through the real loader and every message of the bounded space is decoded with DiagLayer.decode / decode_response; reported (service, coding object) sets must contain every MUST entry and no MUST-NOT entry of the reference, DecodeError only if nothing must match, decoded parameter dictionaries equal the reference values, a response is found through its request, service_groups equals the reference for all 256 SIDs.",
    note="Trusted: odxmodel/refdispatch.py. Multiplicity of Messages, trailing bytes, non-prefix CODED-CONST mismatches and echoes straddling the prefix are MAY. One known finding (empty-prefix services are never candidates) is listed in KNOWN_FINDINGS.txt.", ref="5/C06")
+CHECKS["C09"] = dict(cat="exploration", tech="exhaustive enumeration of layer hierarchies (every weakly connected DAG over the five layer types up to 3/5 layers, one per isomorphism class) x placements of same-named objects x every subset of NOT-INHERITED exclusions, in 11-19 object categories at once; independent value-inheritance model",
+   text="Every hierarchy of the bounded space is emitted as ODX, loaded through the real loader (12 independent hierarchies per database) and for every layer and category the visible (short name -> marker) map is compared with the reference; strict-mode loading must fail exactly for unresolved equal-priority clashes between unequal objects; layer.decode finds a service exactly when it is visible; a parent's view is the same with and without its childless descendant.",
+   note="Trusted: odxmodel/refinherit.py. The rank of ECU-SHARED-DATA among parents is three-valued (the run must be consistent with ONE reading; the implemented one is recorded in the evidence).", ref="5/C09")
+CHECKS["C11"] = dict(cat="exploration", tech="exhaustive enumeration of single-field perturbations of every (dataclass, field) pair reachable in three base databases + 162 feature isolations of a generated kitchen-sink database, all archive member orders x 4 load entry points; identity oracle on dataclass graphs",
+   text="For every (class, field) pair (1070 pairs in 109 classes) one perturbation per applicable kind is applied to the loaded object graph, the database is written with write_pdx_file, loaded back and compared field-wise; a second write must be byte-identical; canonical encode/decode of every service must agree; every member order x {load_pdx_file, load_directory, load_files} must give equal databases.",
+   note="Trusted: odxmodel/refroundtrip.py (identity on dataclass graphs, admissibility rules for perturbations). Only attributes the parser reads count; derived fields and discriminators are not perturbed. Five known findings (DIAG-VARIABLE and DYN-DEFINED-SPEC writer macros) are listed in KNOWN_FINDINGS.txt.", ref="5/C11")
 NOT_BUILT_REASON = "check not built yet in this revision of /verif (design in DESIGN.md section 5); not claimed"
 
 def main():
